@@ -35,7 +35,9 @@ CONSTANTS NameMask,   \* 4095 in git: width of the name-length field of the flag
                       \* count instead of git's offset varint, dulwich _compress_path at 671b511),
                       \* "stalestage" (the stage of a written entry is the slot OR-ed with the stage
                       \* bits the entry object still carries from where it was read),
-                      \* "readerskips" (a reader configured with skipHash does not look at the trailer)
+                      \* "readerskips" (a reader configured with skipHash does not look at the trailer),
+                      \* "manyfilesforces" (feature.manyFiles=true turns skipHash on even against an
+                      \* explicit index.skipHash=false)
 
 NM1 == NameMask + 1
 Min(a, b) == IF a < b THEN a ELSE b
@@ -475,6 +477,25 @@ HistBases ==
                 { BaseEntry(S(<<100, 47, 102>>), 1), BaseEntry(DE(130), 0) } } }
 IsHist(x) == Family \in {"hist", "quick"} /\ x \in HistBases
 
+\* ------------------------------------------------------------------ repository configuration
+\* What Repo.open_index() must derive from the configuration (git's repo-settings.c): feature.manyFiles
+\* only changes DEFAULTS (index.version 4, index.skipHash true); an explicit index.skipHash /
+\* index.version always wins.  index.version applies to an index file that does not exist yet.
+Tri == { "unset", "true", "false" }
+ConfSkip(mf, sh) == IF Defect = "manyfilesforces" THEN mf = "true" \/ sh = "true"
+                    ELSE IF sh # "unset" THEN sh = "true" ELSE mf = "true"
+ConfVersion(mf, iv) == IF iv # 0 THEN iv ELSE IF mf = "true" THEN 4 ELSE 2
+\* git demotes version 3 to 2 when no entry needs the extended flags (and promotes 2 to 3 when one does)
+GitWrites(v, E) == IF v = 4 THEN 4 ELSE IF \E e \in E : Extended(e) THEN 3 ELSE 2
+NoConf == [on |-> FALSE, mf |-> "unset", sh |-> "unset", iv |-> 0, gitv |-> 0]
+CasesConf ==
+    { [v |-> ConfVersion(mf, iv), skip |-> ConfSkip(mf, sh), exts |-> <<>>,
+       ents |-> { BaseEntry(S(<<97>>), 0), BaseEntry(S(<<100, 47, 102>>), 2) },
+       cf |-> [on |-> TRUE, mf |-> mf, sh |-> sh, iv |-> iv,
+               gitv |-> GitWrites(ConfVersion(mf, iv), { BaseEntry(S(<<97>>), 0), BaseEntry(S(<<100, 47, 102>>), 2) })]] :
+      mf \in Tri, sh \in Tri, iv \in {0, 2, 3, 4} }
+ConfOf(x) == IF "cf" \in DOMAIN x THEN x.cf ELSE NoConf
+
 Cases == CASE Family = "names"  -> CasesNames(NamesAll)
            [] Family = "namesq" -> CasesNames(NamesQuick)
            [] Family = "names3" -> CasesNames(NamesThree)
@@ -485,6 +506,8 @@ Cases == CASE Family = "names"  -> CasesNames(NamesAll)
            [] Family = "lemmaq" -> CasesLemmaQ
            [] Family = "neg"    -> CasesNeg
            [] Family = "quick"  -> CasesNames(NamesQuick) \cup CasesFlagsLegal \cup CasesStat \cup CasesExts \cup HistBases
+                                   \cup CasesConf
+           [] Family = "conf"   -> CasesConf
            [] Family = "hist"   -> HistBases
 
 \* ------------------------------------------------------------------ the enumeration as a state machine
@@ -509,7 +532,7 @@ Compute(x) ==
      must   |-> SelectSeq(x.exts, MustKeep),
      refields |-> IF x.exts = <<>> THEN <<>>
                   ELSE LayoutOf(EffVersion(x.v, x.ents), x.skip, es, SelectSeq(x.exts, Keeps)),
-     h      |-> NoHist]
+     h      |-> NoHist, cf |-> ConfOf(x)]
 
 \* a history: base index x written and read (its file: bfields, version bv), edits eds applied to the
 \* objects that were read, the result written again.  expect comes from the slots; fields from what
@@ -525,7 +548,8 @@ ComputeHist(x, m, ed) ==
      fields |-> LayoutOf(fv, x.skip, Sorted(Written(m)), <<>>),
      expect |-> MapNorm(es),
      keep   |-> <<>>, must |-> <<>>, refields |-> <<>>,
-     h      |-> [hist |-> TRUE, bv |-> bv, bins |-> Reverse(Sorted(x.ents)), bfields |-> Layout(x), eds |-> ed]]
+     h      |-> [hist |-> TRUE, bv |-> bv, bins |-> Reverse(Sorted(x.ents)), bfields |-> Layout(x), eds |-> ed],
+     cf     |-> NoConf]
 
 Init == c \in Cases /\ ph = 0 /\ out = <<>> /\ eds = <<>> /\ mem = IF IsHist(c) THEN MemOf(c.ents) ELSE {}
 
@@ -554,6 +578,17 @@ OrderInv == Done => Ordered(out.expect) /\ Len(out.expect) = Cardinality(IF out.
 \* path never ends up both merged and unmerged
 StageFromSlot == /\ \A s \in mem : WrittenStage(s) = s.slot
                  /\ Legal(SlotView(mem))
+
+\* configuration: the trailer is a checksum unless skipHash is in force, and an explicit
+\* index.skipHash decides alone; feature.manyFiles decides only when index.skipHash is unset
+ConfInv ==
+    Done /\ out.cf.on =>
+        LET zero == out.fields[Len(out.fields)].t # "sha1" IN
+        /\ (out.cf.sh = "true" => zero)
+        /\ (out.cf.sh = "false" => ~zero)
+        /\ (out.cf.sh = "unset" => (zero <=> out.cf.mf = "true"))
+        /\ (out.cf.iv # 0 => out.effv = out.cf.iv)
+        /\ (out.cf.iv = 0 => out.effv = IF out.cf.mf = "true" THEN 4 ELSE 2)
 
 \* version 2/3 entries are padded with 1..8 NULs to a multiple of 8 (counted from the entry start);
 \* the name-length field never spills into the stage bits; version 2 carries no extended flags
